@@ -175,6 +175,8 @@ class HdrGen:
         hostmode = rng.choice(['authority', 'authority', 'host', 'both'])
         if self.variety and rng.random() < self.variety * 0.04:
             auth = ''           # present but empty (legal: RFC 7540 only asks for presence and agreement)
+        if m == 'HEAD' and self.head_bias and rng.random() < 0.5:
+            hostmode = 'host'   # (a request that names its authority only in Host)
         if hostmode in ('authority', 'both'):
             pseudo.append((':authority', auth))
         rng.shuffle(pseudo)
@@ -1003,8 +1005,10 @@ class Gen:
             if room < 0:
                 return
             n = rng.choice([0, 1, min(room, 100), min(room, 5000), room])
-            self.call(x, 'send_data', sid=sid, data=b'r' * n, es=rng.random() < 0.15,
-                      pad=rng.choice([None, None, 0]) if room > n else None)
+            pad = rng.choice([None, None, 0, 7, 255])
+            if pad is not None and room < n + pad + 1:
+                pad = None
+            self.call(x, 'send_data', sid=sid, data=b'r' * n, es=rng.random() < 0.15, pad=pad)
         elif c == 'push':
             promised = xt.hi_mine + 2 if xt.hi_mine else 2
             if promised > MAXID:
@@ -1054,6 +1058,8 @@ class Gen:
         sid = self._sid_pool(trk)
         st = trk.get(sid)
         k = rng.randrange(22)
+        if self.P.get('misuse_focus') and rng.random() < 0.5:
+            k = rng.choice(self.P['misuse_focus'])      # (per-property emphasis inside the misuse catalogue)
         if st is not None and k in (0, 1, 2, 12, 20) and ((ep, sid) in self.cl_left or (ep, sid) in self.nohead
                                                         or self._no_body(trk, st)):
             return      # body-carrying misuse would make the *application* break HTTP semantics (C16's business)
